@@ -350,7 +350,7 @@ func solverName() string {
 
 // defaultInits are standard-library packages whose package-level variables
 // (io.EOF, bytes.ErrTooLarge, ...) the interpreted code compares against.
-var defaultInits = []string{"io", "bytes", "bufio", "encoding/binary", "io/fs"}
+var defaultInits = []string{"internal/oserror", "io", "bytes", "bufio", "encoding/binary", "io/fs", "github.com/cockroachdb/errors/oserror"}
 
 func initFuncs(prog *ssa.Program, list []string) ([]*ssa.Function, []string) {
 	var inits []*ssa.Function
